@@ -120,8 +120,14 @@ def correspond(ctx):
 # ------------------------------------------------------------------ oracle
 def oracle_one(name, args, evs, ids):
     """None or (key, what). Checks the property's clauses on the real filter."""
+    import random as _random
     before = {id(p): p.data_.copy() for ev in evs for p in ev}
+    env0 = (_random.getstate(), np.random.get_state()[1].tobytes(), np.geterr(), np.get_printoptions())
     res, err = run_real(name, args, evs)
+    env1 = (_random.getstate(), np.random.get_state()[1].tobytes(), np.geterr(), np.get_printoptions())
+    if env1 != env0:
+        what = [n for n, a, b in zip(("random-state", "numpy-random-state", "numpy-error-state", "print-options"), env0, env1) if a != b]
+        return (f"{name}-environment-changed", f"{name}{canon_args(args)} left {', '.join(what)} changed")
     if err:
         if name == "spacetime_rapidity_cut" and err == "err value" and any(pmodel.spacelike(p) for ev in evs for p in ev):
             return None  # documented ValueError of Particle.spacetime_rapidity for |z| >= t (C08): outside C03's inputs
